@@ -16,8 +16,8 @@ REGISTRY = {}
 # statements kept visible at full strength but not proved (see DESIGN.md); the correspondence
 # check samples them, it does not settle them
 OPEN = {
-    "C01": ["C01_parse_sem: forall sty a, wf_media a -> parse_media (render_media sty a) = Ok (complete (sem_media a)) -- proved in layers (tokenizer, unquote, dispatch, assembly, integers, C06-C09); missing: per-tag interpretation lemmas and the float text conversions of EXTINF / DATERANGE durations"],
-    "C02": ["C02_parse_sem: forall sty a, wf_master a -> parse_master (render_master sty a) = Ok (sem_master a) -- proved in layers (tokenizer, dispatch, source order, enums, integers); missing: per-tag interpretation lemmas, UFloat frame rates"],
+    "C01": ["C01_parse_sem for an ARBITRARY surface style: forall sty a, parse_media (render_media sty a) = Ok (sem a) -- proved for the canonical style (C01_canonical_text: every tag through the tokenizer and its parser) and, for arbitrary styles, in layers (tokenizer under any padding, attribute order, unknown attributes ignored, dispatch, CRLF/blank/comment lines, assembly); the composition over all styles is not one theorem; durations/floats enter as dur_rt/float_rt"],
+    "C02": ["C02_parse_sem for an ARBITRARY surface style -- proved for the canonical style (C02_canonical_text) and in layers for arbitrary styles (tokenizer under any padding, unknown attributes ignored, attribute order for three tags, dispatch, source order); the composition over all styles is not one theorem; frame rates enter as ufloat_rt"],
     "C03": ["C03_parsed_wf: forall s p, parse_media s = Ok p -> wf_media p = true -- not a theorem and not true unconditionally: besides the float/duration conditions (dur_rt, float_rt: decidable hypotheses on the modelled std conversions) a parse result can hold an unquoted SCTE35-* value with a comma or an EXTINF title that the writer cannot express; C03_roundtrip is stated for the well-formed parse results (wf_media, decidable, evaluated on a parsed example) and membership is sampled by the correspondence check",
             "byte-identical second serialisation and the order inside a key list: FALSE in general (known findings D20, D9-K1); keys are compared as sets, a map's keys are the reader's keys"],
     "C04": ["ufloat_rt x (FRAME-RATE) / float_rt x (TIME-OFFSET) for every f32 with at most 3 decimals: C04_roundtrip holds for every parse result under this decidable hypothesis on the modelled std float conversions; the hypothesis itself is not a theorem (evaluated on examples, exercised by the correspondence check)"],
